@@ -364,6 +364,9 @@ def r03f(ctx, P):
                "the retry on the same handle trusts it" % (what, site.loc(), bad[0].loc()), site.loc())
 
 
+THOROUGH_FEATURES = ['r03e', 'r03f']
+
+
 def run(ctx, progs):
     P = progs.get("default")
     commit = r03ab(ctx, P)
